@@ -4,6 +4,7 @@ From Coq Require Import List String Ascii ZArith Bool Arith Lia Decimal DecimalS
 From AV Require Import Macros.MacroModel.
 From AV Require Import Macros.MacroLemmas.
 From AV Require Import Macros.MacroNames.
+From AV Require Import Macros.MacroNested.
 Import ListNotations.
 Open Scope list_scope.
 
@@ -232,7 +233,7 @@ End Sim.
 Section Main.
 Variable M : list mdef.
 Variable rk : nat -> nat.
-Hypothesis WF : forallb (wf_def rk) M = true.
+Hypothesis WF : forallb (wf_def rk M) M = true.
 
 Lemma wf_ident_spec o i : wf_ident o i = true -> iorg i = o /\ isc i = 0 /\ user_name (iname i) = true.
 Proof.
@@ -240,15 +241,19 @@ Proof.
   destruct (iorg i), o; simpl in Ho; try discriminate; auto. apply Nat.eqb_eq in Ho. congruence.
 Qed.
 
+(* an identifier of a macro body is bound by the body: by one of its own items, or through nested invocations *)
+Definition bound_in (d : mdef) (nm : string) : Prop :=
+  In nm (map iname (bv_items (mbody d))) \/ In nm (var_names (xbv_items DEPTH M (mbody d))).
+
 Lemma wf_unpack d : In d M ->
   (forall i, In i (ids_items (mbody d)) -> iorg i = OMac (mname d) /\ isc i = 0 /\ user_name (iname i) = true)
-  /\ (forall i, In i (ids_items (mbody d)) -> In (iname i) (map iname (bv_items (mbody d))))
+  /\ (forall i, In i (ids_items (mbody d)) -> bound_in d (iname i))
   /\ (forall m', In m' (invs_items (mbody d)) -> rk m' < rk (mname d)).
 Proof.
   intros Hd. rewrite forallb_forall in WF. specialize (WF d Hd). unfold wf_def, wf_def_ids, wf_def_bound, wf_def_rank in WF.
   rewrite !andb_true_iff in WF. destruct WF as [[W1 W3] W4]. split; [|split]; auto.
   - intros i Hi. rewrite forallb_forall in W1. apply wf_ident_spec; auto.
-  - intros i Hi. rewrite forallb_forall in W3. apply mem_str_in. auto.
+  - intros i Hi. rewrite forallb_forall in W3. specialize (W3 i Hi). apply orb_true_iff in W3 as [W3|W3]; [left|right]; apply mem_str_in; exact W3.
   - intros m' Hm. rewrite forallb_forall in W4. apply Nat.ltb_lt. auto.
 Qed.
 
@@ -258,7 +263,8 @@ Lemma inst_rel m acts K be :
   exists d bh, lookup_macro M m = Some d /\ instantiate M m acts (map_items (set_sc K)) = OK bh /\ be = map_items clr bh
     /\ incl (ids_items bh) (map (set_sc K) (ids_items (mbody d)) ++ flat_map ids_term acts)
     /\ invs_items bh = invs_items (mbody d)
-    /\ incl (map (set_sc K) (bv_items (mbody d))) (bv_items bh).
+    /\ incl (map (set_sc K) (bv_items (mbody d))) (bv_items bh)
+    /\ exists sh, bh = subst_items sh (map_items (set_sc K) (mbody d)).
 Proof.
   unfold instantiate. destruct (lookup_macro M m) as [d|] eqn:L; [|discriminate].
   pose proof (bind_args_map clr (mparams d) acts []) as BA. simpl in BA. rewrite BA. clear BA.
@@ -273,6 +279,7 @@ Proof.
     right. apply bind_args_ids in Eb. apply Eb in Hx. simpl in Hx. rewrite app_nil_r in Hx. exact Hx.
   - rewrite invs_items_subst, invs_items_map. reflexivity.
   - rewrite <- bv_items_map. apply bv_items_subst.
+  - exists sh. reflexivity.
 Qed.
 
 Lemma ren_idem m mp i : (forall s x, sassoc mp s = Some x -> sassoc mp x = None) -> ren m mp (ren m mp i) = ren m mp i.
@@ -316,11 +323,11 @@ Proof.
     simpl in Hex. destruct (instantiate M m (map (map_term clr) acts) (fun b0 => b0)) as [be|] eqn:Ei; [|discriminate].
     destruct (expand_list (expand_item n M) be g) as [[its g1]|] eqn:El; [|discriminate].
     set (K := S k) in *.
-    destruct (inst_rel m acts K be Ei) as (d & bh & L & Eh & -> & Hids & Hinv & Hbv).
+    destruct (inst_rel m acts K be Ei) as (d & bh & L & Eh & -> & Hids & Hinv & Hbv & sh & Ebh).
     destruct (lookup_macro_in _ _ _ L) as [Hd Hn]. destruct (wf_unpack d Hd) as (W1 & W3 & W4). rewrite Hn in *.
     simpl in Hsc, Hab.
     (* facts about the identifiers of the instantiated body *)
-    assert (Hbh : forall i, In i (ids_items bh) -> (isc i = K /\ iorg i = OMac m /\ user_name (iname i) = true /\ In (iname i) (map iname (bv_items (mbody d))))
+    assert (Hbh : forall i, In i (ids_items bh) -> (isc i = K /\ iorg i = OMac m /\ user_name (iname i) = true /\ bound_in d (iname i))
                                                     \/ (isc i <= b /\ In i (flat_map ids_term acts))).
     { intros i Hi. apply Hids in Hi. apply in_app_or in Hi as [Hi|Hi]; [left|right; split; auto].
       apply in_map_iff in Hi as (i0 & <- & Hi0). destruct (W1 i0 Hi0) as (Ho & Hs & Hu). simpl. repeat split; auto. }
@@ -338,7 +345,7 @@ Proof.
       - destruct (Hbh i Hin) as [(Hs & _ & Hu & _)|[_ Hia]]; [auto|].
         exfalso. assert (rk m < rk m) by (eapply Hab; eauto; simpl; auto). lia.
       - exfalso. rewrite Hinv in Hm0. apply W4 in Hm0. assert (m1 = m) by congruence. subst. lia. }
-    assert (HK : forall i, In i (ids_items hs) -> isc i = K -> iorg i = OMac m /\ In (iname i) (map iname (bv_items (mbody d)))).
+    assert (HK : forall i, In i (ids_items hs) -> isc i = K -> iorg i = OMac m /\ bound_in d (iname i)).
     { intros i Hi Hs. destruct (I1 i Hi) as [[_ Hin]|[[Hlt _] _]]; [|lia].
       destruct (Hbh i Hin) as [(_ & Ho & _ & Hb)|[Hs' _]]; [auto|unfold K in *; lia]. }
     unfold rename_originated in Hex.
@@ -351,15 +358,21 @@ Proof.
       apply filter_In in He as [He Ho]. rewrite bv_items_map in He. apply in_map_iff in He as (i & <- & Hi).
       apply bv_items_incl in Hi. apply org_is_spec in Ho. simpl in Ho. destruct (Horg i Hi Ho) as [Hs Hu].
       simpl. rewrite Hs, O1 by lia. exact Hu. }
+    (* a bound identifier of the body has a binding occurrence among the expanded items: one of its own items binds it
+       (hexpand keeps binders), or nested invocations do (MacroNested.xbv_sound_list) *)
+    assert (HB : forall nm, bound_in d nm -> exists j0, iname j0 = nm /\ In j0 (ids_items (mbody d)) /\ In (set_sc K j0) (bv_items hs)).
+    { intros nm [Hb|Hb].
+      - apply in_map_iff in Hb as (j0 & Hj0n & Hj0). exists j0. split; [exact Hj0n|]. split; [apply bv_items_incl; exact Hj0|].
+        eapply (expand_list_bv (hexpand_item n M) (hexp_bv M n)); [exact Ehs|]. apply Hbv. apply in_map. exact Hj0.
+      - apply var_names_in in Hb as (j0 & Hj0 & Hj0n). exists j0. split; [exact Hj0n|]. split; [eapply xbv_items_ids; exact Hj0|].
+        rewrite Ebh in Ehs. eapply (xbv_sound_list M n _ _ _ _ _ _ Ehs DEPTH (VId j0)); [exact Hj0|reflexivity]. }
     assert (HS_K : forall i, In i (ids_items hs) -> isc i = K -> In (iname i) S).
-    { intros i Hi Hs. destruct (HK i Hi Hs) as [Ho Hb]. apply in_map_iff in Hb as (j0 & Hj0n & Hj0).
+    { intros i Hi Hs. destruct (HK i Hi Hs) as [Ho Hb]. destruct (HB _ Hb) as (j0 & Hj0n & Hj0 & Hj).
       unfold S, originated. apply dedup_str_in. apply in_map_iff.
-      assert (Hj : In (set_sc K j0) (bv_items hs)).
-      { eapply (expand_list_bv (hexpand_item n M) (hexp_bv M n)); [exact Ehs|]. apply Hbv. apply in_map. exact Hj0. }
       exists (names_via nu1 (set_sc K j0)). split.
       - simpl. rewrite O1 by lia. exact Hj0n.
       - apply filter_In. split; [rewrite bv_items_map; apply in_map; exact Hj|].
-        apply org_is_spec. simpl. apply bv_items_incl in Hj0. apply W1 in Hj0. tauto. }
+        apply org_is_spec. simpl. apply W1 in Hj0. tauto. }
     set (R := ren m mp).
     assert (Hidem : forall i, R (R i) = R i).
     { intros i. apply ren_idem. intros s x Hsx. destruct (in_dec string_dec s S) as [Hs|Hs].
